@@ -17,7 +17,7 @@ ID = "C04"
 LEAN_TARGETS = ["OdxVerif.Props.C04"]
 DRIVERS = ["drv_codec"]
 P = "OdxVerif.Codec."
-THEOREMS = [P + t for t in ["C04_no_silent_corruption_partial", "C04_accepts_iff_representable", "rawOfInt32_ok", "rawOfInt32_reject"]]
+THEOREMS = [P + t for t in ["C04_no_silent_corruption_partial", "C04_accepts_iff_representable", "C04_flat", "encodeMessage_flat_bad", "encodeMessage_flat_unknown", "rawOfInt32_ok", "rawOfInt32_reject"]]
 RULE = ("direct oracle, model-free: for every description (odxgen, well-formed, loaded through the XML loader) x every assignment of the "
         "control stream (valid values) and of the malformed stream (harness/malformed.py: one damaged site per mutant - boundary +-1 of the "
         "representable range, wrong Python type, over-/under-long and empty strings/byte fields, non-encodable characters, terminators inside "
@@ -41,6 +41,7 @@ ASSUMPTIONS = ["'the library's own error type' = any OdxError subclass (EncodeEr
                "(tests/test_encoding.py re-encodes a decoded dictionary whose reserved parameter is 0xffffff); they are counted, not reported. "
                "Values supplied for CODED-CONST/PHYS-CONST/NRC-CONST must be rejected unless equal",
                "NRC-CONST overlay parameters (harness device to set the NRC) are only given listed codes",
+               "ENV-DATA-DESC: values for environments that do not apply to the DTC are ignored by design (allow_unknown_parameters)",
                "an OdxWarning (overlap) during encode excuses the case (counted)"]
 
 logging.getLogger("odxtools").setLevel(logging.CRITICAL)
@@ -92,7 +93,13 @@ def c04_eval(comp, obj, value, trig):
         if e != g:
             return ("returns-requested-values", "mismatch", {**extra, "decoded": V.jsonable(dec.value), "expected": V.jsonable(exp)},
                     ["diff:" + str(diff_kind(e, g))]), enc, dec
+    except M.Unjudgeable:
+        return None, enc, dec
     except M.Unpredictable as why:
+        if any(isinstance(p.dop, D.EnvDataDesc) for p, _ in D.walk_params(comp.params)):
+            # environment data: values for environments that do not apply to the DTC are ignored by design
+            # (EncodeState.allow_unknown_parameters), SYSTEM parameters get implicit values: no expectation, no judgement
+            return None, enc, dec
         if not M.embeds(dec.value, value):
             return ("returns-requested-values", "ill-typed-value-accepted-and-changed",
                     {**extra, "decoded": V.jsonable(dec.value), "no_expectation": str(why)}, ["diff:embeds"]), enc, dec
@@ -212,7 +219,7 @@ class Run:
         if corr and line is not None and has_unfaithful_sexp(value):
             ctx.count("corr_no_faithful_sexp(bool/bytearray)")
         elif corr and line is not None:
-            self.corr.add(family, comp, line, O.reply_encode(enc))
+            self.corr.add(family + "|" + tag_kind(tag), comp, line, O.reply_encode(enc))
         elif corr:
             ctx.count("corr_no_sexp_for_value")
         if r:
@@ -505,7 +512,7 @@ def run(ctx):
                 run_.case(c, L[c.name], mv, None, "enum-std-float-string-bytes", tag, shrink=False)
         run_.corr.flush()
     # (e) random composites x mutants
-    n_docs = 9000 if big else 520
+    n_docs = 9000 if big else 1300
     for i in range(n_docs):
         prof = (G.THOROUGH if big else G.QUICK) if i % 4 else (G.SIMPLE_DEEP if big else G.SIMPLE)
         try:
